@@ -1227,6 +1227,8 @@ func (h *handler) handleCreateTopics(ctx context.Context, header *protocol.Reque
 				switch {
 				case errors.Is(err, metadata.ErrTopicExists):
 					t.ErrorCode = protocol.TOPIC_ALREADY_EXISTS
+				case errors.Is(err, metadata.ErrInvalidPartitions):
+					t.ErrorCode = protocol.INVALID_PARTITIONS
 				case errors.Is(err, metadata.ErrInvalidTopic):
 					t.ErrorCode = protocol.INVALID_TOPIC_EXCEPTION
 				default:
@@ -1248,6 +1250,8 @@ func (h *handler) handleCreateTopics(ctx context.Context, header *protocol.Reque
 			switch {
 			case errors.Is(err, metadata.ErrTopicExists):
 				t.ErrorCode = protocol.TOPIC_ALREADY_EXISTS
+			case errors.Is(err, metadata.ErrInvalidPartitions):
+				t.ErrorCode = protocol.INVALID_PARTITIONS
 			case errors.Is(err, metadata.ErrInvalidTopic):
 				t.ErrorCode = protocol.INVALID_TOPIC_EXCEPTION
 			default:
@@ -1313,6 +1317,9 @@ func (h *handler) handleDeleteTopics(ctx context.Context, header *protocol.Reque
 func (h *handler) validateCreateTopic(ctx context.Context, topic kmsg.CreateTopicsRequestTopic) error {
 	if !metadata.ValidTopicName(topic.Topic) || topic.NumPartitions <= 0 {
 		return metadata.ErrInvalidTopic
+	}
+	if topic.NumPartitions > metadata.MaxTopicPartitions {
+		return metadata.ErrInvalidPartitions
 	}
 	replicationFactor := topic.ReplicationFactor
 	if replicationFactor <= 0 {
@@ -1654,6 +1661,9 @@ func (h *handler) validateCreatePartitions(ctx context.Context, topic string, co
 	current := int32(len(meta.Topics[0].Partitions))
 	if count <= current {
 		return metadata.ErrInvalidTopic
+	}
+	if count > metadata.MaxTopicPartitions {
+		return metadata.ErrInvalidPartitions
 	}
 	return nil
 }
